@@ -18,9 +18,9 @@
    - no_external (c_filepps c) : no --pp-run-program.  The external program IS in the model (PPExternal f, f arbitrary; translated
      call, run in the harness) and in the footprint / no-overwrite / directory / link statements; only "succeeds" and "equals the
      fresh run" are proved without it (an in-place editor can fail on a read-only file and changes the content after rendering).
-   - links_safe e c : every target of c is not a symbolic link, or the gate refuses links (gate_refuses_links: a property of
+   - specials_safe e c : every target of c is not a symbolic link, or the gate refuses links (gate_refuses_links: a property of
      the translated gate; false before design_notes/C12_symlink_fix.patch, see gate_links_dichotomy).  Links are part of env
-     (no run creates or retargets one; exists/is_dir/stat/chmod/open follow them).  links_clear e c : no target is a link.
+     (no run creates or retargets one; exists/is_dir/stat/chmod/open follow them).  targets_plain e c : no target is a link.
    - compatible e c c' : what c needs as a directory is not a target of c', and vice versa (frozen directory skeleton);
      holds for all configurations of one namespace/language family by C11's targets_inside (paths = outdir ++ safe components,
      files end in an extension) -- stated, not derived, because C12's paths are opaque.
@@ -32,8 +32,9 @@ Import ListNotations.
 Open Scope N_scope.
 
 (* Where render_independent comes from: instantiate render with the text of C10's log entry for (class, path); then the
-   premise is C10_file_indep_real (hypothesis 1, literally its statement) plus totality of generation (hypothesis 2), which C10
-   does not provide yet -- the exact bridging lemma that is missing (Gen/RegenC10.v). *)
+   premise is C10_file_indep_real (hypothesis 1, literally its statement), existence of the entry (hypothesis 2: C10's
+   GenStateThmSubset.single_run_entry for single-invocation runs, for pairs that are targets) and decidability of matching
+   (hypothesis 3, not stated in C10).  See Gen/RegenC10.v for what is still missing for a hypothesis-free instantiation. *)
 Theorem render_independent_from_c10 :
   forall (log_of : N -> list GenState.entry) (cls_of : N -> N * GenState.tlist * list LinePPInst.pp)
          (key_of : path -> GenState.tkey) (cid_of : Str.str -> N),
@@ -41,8 +42,9 @@ Theorem render_independent_from_c10 :
      GenState.e_cfg e1 = GenState.e_cfg e2 -> GenState.e_tset e1 = GenState.e_tset e2 ->
      GenState.e_pps0 e1 = GenState.e_pps0 e2 -> GenState.e_key e1 = GenState.e_key e2 ->
      GenState.e_tmpl e1 = GenState.e_tmpl e2 /\ GenState.e_text e1 = GenState.e_text e2) ->
-  forall gen : (forall a cl p, { e : GenState.entry | In e (log_of a) /\ matches cls_of key_of e cl p }),
-  render_independent (render_c10 log_of cls_of key_of cid_of gen).
+  forall (gen : forall a cl p, exists e : GenState.entry, In e (log_of a) /\ matches cls_of key_of e cl p)   (* single_run_entry *)
+         (dec : forall e cl p, {matches cls_of key_of e cl p} + {~ matches cls_of key_of e cl p}),
+  render_independent (render_c10 log_of cls_of key_of cid_of gen dec).
 Proof. exact RegenC10.render_c10_independent. Qed.
 Print Assumptions render_independent_from_c10.
 
@@ -50,14 +52,14 @@ Print Assumptions render_independent_from_c10.
    post-processors contain a SetFileMode (the command line always appends one: cli_setfilemode_last) leaves at every target
    the file a run into the empty directory leaves: same content id, requested mode.  Trigger excluded (see
    copy_into_directory_refuted): a directory sits where shutil.copy is about to write a support file. *)
-Theorem regen_equals_fresh : forall render e, render_independent render -> env_wf e -> forall h s0 c p, links_safe e c ->
+Theorem regen_equals_fresh : forall render e, render_independent render -> env_wf e -> forall h s0 c p, specials_safe e c ->
   c_dryrun c = false -> no_external (c_filepps c) = true -> c_filepps c <> [] ->
   snd (step render e (history render e s0 h) c) = Ok -> snd (step render e empty_fs c) = Ok -> In p (targets c) ->
   obs (fst (step render e (history render e s0 h) c) p) = obs (fst (step render e empty_fs c) p).
 Proof. exact RegenThm.regen_equals_fresh. Qed.
 Print Assumptions regen_equals_fresh.
 
-Theorem regen_canonical : forall render e, render_independent render -> env_wf e -> forall s c p, links_safe e c ->
+Theorem regen_canonical : forall render e, render_independent render -> env_wf e -> forall s c p, specials_safe e c ->
   c_dryrun c = false -> no_external (c_filepps c) = true -> c_filepps c <> [] ->
   snd (step render e s c) = Ok -> In p (targets c) ->
   obs (fst (step render e s c) p) = canonical render e c p.
@@ -65,7 +67,7 @@ Proof. exact RegenThm.canonical_any_state. Qed.
 Print Assumptions regen_canonical.
 
 (* the content half needs no SetFileMode; the target is a regular file *)
-Theorem regen_content_canonical : forall render e, render_independent render -> env_wf e -> forall s c p, links_safe e c ->
+Theorem regen_content_canonical : forall render e, render_independent render -> env_wf e -> forall s c p, specials_safe e c ->
   c_dryrun c = false -> no_external (c_filepps c) = true ->
   snd (step render e s c) = Ok -> In p (targets c) ->
   exists f, fst (step render e s c) p = Some f /\ f_isdir f = false /\ f_cid f = render empty_fs 0 (c_class c) p.
@@ -74,12 +76,12 @@ Print Assumptions regen_content_canonical.
 
 (* a directory at the path of ANY file to generate (type file, templated or copied support file) makes the run fail; it is
    never written into, replaced, chmod-ed (owner and kind kept; untouched altogether when it is not itself a target) *)
-Theorem directory_at_target_fails : forall render e, env_wf e -> forall s c, links_safe e c ->
+Theorem directory_at_target_fails : forall render e, env_wf e -> forall s c, specials_safe e c ->
   c_dryrun c = false -> (exists p, In p (targets c) /\ fs_is_dir s p = true) -> snd (step render e s c) <> Ok.
 Proof. exact RegenThm.directory_at_target_fails. Qed.
 Print Assumptions directory_at_target_fails.
 
-Theorem directory_kept : forall render e, env_wf e -> forall s ev q f, links_safe e (ev_cfg ev) ->
+Theorem directory_kept : forall render e, env_wf e -> forall s ev q f, specials_safe e (ev_cfg ev) ->
   s q = Some f -> f_isdir f = true ->
   exists f', apply_event render e s ev q = Some f' /\ f_isdir f' = true /\ f_owned f' = f_owned f /\
              (~ In q (targets (ev_cfg ev)) -> f' = f).
@@ -94,7 +96,7 @@ Print Assumptions cli_setfilemode_last.
 (* ---- what a run can touch ------------------------------------------------------------------------------------------ *)
 (* every entry that differs after a run (successful or failed) is a target, or a directory above a target that did not
    exist and has been created *)
-Theorem written_in_footprint : forall render e, env_wf e -> forall s c q, links_safe e c ->
+Theorem written_in_footprint : forall render e, env_wf e -> forall s c q, specials_safe e c ->
   fst (step render e s c) q <> s q ->
   In q (targets c) \/ (In q (dir_targets e c) /\ s q = None /\ fst (step render e s c) q = Some (new_dir e)).
 Proof. exact RegenThm.written_in_footprint. Qed.
@@ -121,14 +123,14 @@ Print Assumptions targets_distinct_from_c11.
 
 (* existing entries that are not targets keep content, mode, everything -- in every run, failed or not; a missing path stays
    missing unless it is a directory above a target *)
-Theorem foreign_untouched : forall render e, env_wf e -> forall s c q, links_safe e c ->
+Theorem foreign_untouched : forall render e, env_wf e -> forall s c q, specials_safe e c ->
   ~ In q (targets c) -> (s q <> None \/ ~ In q (dir_targets e c)) ->
   fst (step render e s c) q = s q.
 Proof. exact RegenThm.foreign_untouched. Qed.
 Print Assumptions foreign_untouched.
 
 Theorem history_foreign : forall render e, env_wf e -> forall h s q,
-  (forall ev, In ev h -> links_safe e (ev_cfg ev)) ->
+  (forall ev, In ev h -> specials_safe e (ev_cfg ev)) ->
   (forall ev, In ev h -> ~ In q (targets (ev_cfg ev))) ->
   (s q <> None \/ forall ev, In ev h -> ~ In q (dir_targets e (ev_cfg ev))) ->
   history render e s h q = s q.
@@ -136,7 +138,7 @@ Proof. exact RegenThm.history_foreign. Qed.
 Print Assumptions history_foreign.
 
 Theorem foreign_dirs_only : forall render e, env_wf e -> forall h s q,
-  (forall ev, In ev h -> links_safe e (ev_cfg ev)) ->
+  (forall ev, In ev h -> specials_safe e (ev_cfg ev)) ->
   (forall ev, In ev h -> ~ In q (targets (ev_cfg ev))) ->
   history render e s h q = s q \/ (s q = None /\ history render e s h q = Some (new_dir e)).
 Proof. exact RegenThm.foreign_dirs_only. Qed.
@@ -150,19 +152,19 @@ Print Assumptions foreign_unconditional_refuted.
 
 (* ---- --no-overwrite ---------------------------------------------------------------------------------------------------- *)
 (* nothing that existed before the run changes (files and directories) *)
-Theorem no_overwrite_safe : forall render e, env_wf e -> forall s c q, links_safe e c ->
+Theorem no_overwrite_safe : forall render e, env_wf e -> forall s c q, specials_safe e c ->
   c_allow c = false -> s q <> None -> fst (step render e s c) q = s q.
 Proof. exact RegenThm.no_overwrite_safe. Qed.
 Print Assumptions no_overwrite_safe.
 
 Theorem no_overwrite_safe_history : forall render e, env_wf e -> forall h s0 q,
-  (forall ev, In ev h -> exists c, ev = Run c /\ c_allow c = false /\ links_safe e c) -> s0 q <> None ->
+  (forall ev, In ev h -> exists c, ev = Run c /\ c_allow c = false /\ specials_safe e c) -> s0 q <> None ->
   history render e s0 h q = s0 q.
 Proof. exact RegenThm.no_overwrite_safe_history. Qed.
 Print Assumptions no_overwrite_safe_history.
 
 (* a conflict is never silently accepted *)
-Theorem no_overwrite_conflict_fails : forall render e, env_wf e -> forall s c, links_safe e c ->
+Theorem no_overwrite_conflict_fails : forall render e, env_wf e -> forall s c, specials_safe e c ->
   c_dryrun c = false -> c_allow c = false ->
   (exists p, In p (targets c) /\ s p <> None) -> snd (step render e s c) <> Ok.
 Proof. exact RegenThm.no_overwrite_conflict_fails. Qed.
@@ -176,7 +178,7 @@ Theorem no_overwrite_ok_iff : forall strop es ext stem outdir g perm types (enc 
   c_types c = derived_types strop es ext stem outdir g perm types enc ->
   NoDup (map fst (support_selection (c_omit c) (c_sersup c) (c_typesup c))) ->
   (forall p, In p (map fst (support_selection (c_omit c) (c_sersup c) (c_typesup c))) -> ~ In p (c_types c)) ->
-  c_dryrun c = false -> c_allow c = false -> no_external (c_filepps c) = true -> compatible e c c -> links_clear e c ->
+  c_dryrun c = false -> c_allow c = false -> no_external (c_filepps c) = true -> compatible e c c -> targets_plain e c ->
   (forall p, In p (targets c) -> ready e s p = true) ->
   (snd (step render e s c) = Ok <-> forall p, In p (targets c) -> s p = None).
 Proof. exact RegenC11.no_overwrite_ok_iff_c11. Qed.
@@ -188,7 +190,7 @@ Theorem no_overwrite_error_iff : forall strop es ext stem outdir g perm types (e
   c_types c = derived_types strop es ext stem outdir g perm types enc ->
   NoDup (map fst (support_selection (c_omit c) (c_sersup c) (c_typesup c))) ->
   (forall p, In p (map fst (support_selection (c_omit c) (c_sersup c) (c_typesup c))) -> ~ In p (c_types c)) ->
-  c_dryrun c = false -> c_allow c = false -> no_external (c_filepps c) = true -> compatible e c c -> links_clear e c ->
+  c_dryrun c = false -> c_allow c = false -> no_external (c_filepps c) = true -> compatible e c c -> targets_plain e c ->
   (forall p, In p (targets c) -> ready e s p = true) ->
   (snd (step render e s c) = Err EExists <-> exists p, In p (targets c) /\ s p <> None).
 Proof. exact RegenC11.no_overwrite_error_iff_c11. Qed.
@@ -206,7 +208,7 @@ Print Assumptions dry_run_inert.
 Theorem regen_total_history : forall render e, render_independent render -> env_wf e -> forall h s0 c,
   chmodable e s0 -> (forall p, In p (targets c) -> ready e s0 p = true) ->
   compatible e c c -> (forall ev, In ev h -> compatible e c (ev_cfg ev)) ->
-  links_clear e c -> (forall ev, In ev h -> links_safe e (ev_cfg ev)) ->
+  targets_plain e c -> (forall ev, In ev h -> specials_safe e (ev_cfg ev)) ->
   c_allow c = true -> c_dryrun c = false -> no_external (c_filepps c) = true ->
   snd (step render e (history render e s0 h) c) = Ok.
 Proof. exact RegenThm.regen_total_history. Qed.
@@ -214,7 +216,7 @@ Print Assumptions regen_total_history.
 
 (* ---- crash points: an interrupted run (any prefix of the action list, possibly dying inside a write) -------------------- *)
 Theorem interrupted_then_rerun_equals_fresh : forall render e, render_independent render -> env_wf e ->
-  forall s c0 n j junk c p, links_safe e c ->
+  forall s c0 n j junk c p, specials_safe e c ->
   c_dryrun c = false -> no_external (c_filepps c) = true -> c_filepps c <> [] ->
   snd (step render e (step_crash render e s c0 n j junk) c) = Ok -> snd (step render e empty_fs c) = Ok -> In p (targets c) ->
   obs (fst (step render e (step_crash render e s c0 n j junk) c) p) = obs (fst (step render e empty_fs c) p).
@@ -222,18 +224,18 @@ Proof. intros render e Hi Hw s c0 n j junk. exact (RegenThm.regen_equals_fresh r
 Print Assumptions interrupted_then_rerun_equals_fresh.
 
 Theorem interrupted_then_rerun_succeeds : forall render e, render_independent render -> env_wf e -> forall s c n j junk,
-  chmodable e s -> (forall p, In p (targets c) -> ready e s p = true) -> compatible e c c -> links_clear e c ->
+  chmodable e s -> (forall p, In p (targets c) -> ready e s p = true) -> compatible e c c -> targets_plain e c ->
   c_allow c = true -> c_dryrun c = false -> no_external (c_filepps c) = true ->
   snd (step render e (step_crash render e s c n j junk) c) = Ok.
 Proof.
   intros render e Hi Hw s c n j junk Hc Hr Hcc Lc. apply (RegenThm.regen_total_history render e Hi Hw [Crash c n j junk] s c); auto.
   - intros ev [<-|[]]. exact Hcc.
-  - intros ev [<-|[]]. now apply links_clear_safe.
+  - intros ev [<-|[]]. now apply targets_plain_safe.
 Qed.
 Print Assumptions interrupted_then_rerun_succeeds.
 
 Theorem interrupted_touches_only_footprint : forall render e, env_wf e -> forall s c n j junk q,
-  links_safe e c -> ~ In q (targets c) -> (s q <> None \/ ~ In q (dir_targets e c)) ->
+  specials_safe e c -> ~ In q (targets c) -> (s q <> None \/ ~ In q (dir_targets e c)) ->
   step_crash render e s c n j junk q = s q.
 Proof. intros render e Hw s c n j junk. exact (RegenThm.foreign_event render e Hw s (Crash c n j junk)). Qed.
 Print Assumptions interrupted_touches_only_footprint.
@@ -241,7 +243,7 @@ Print Assumptions interrupted_touches_only_footprint.
 (* --no-overwrite after a partial run: everything the crash left (including a truncated file) stays as it is, and if the
    crash left any target the run ends in an error instead of completing it *)
 Theorem no_overwrite_after_crash : forall render e, env_wf e -> forall s c0 n j junk c,
-  links_safe e c -> c_allow c = false -> c_dryrun c = false ->
+  specials_safe e c -> c_allow c = false -> c_dryrun c = false ->
   (forall q, step_crash render e s c0 n j junk q <> None ->
              fst (step render e (step_crash render e s c0 n j junk) c) q = step_crash render e s c0 n j junk q) /\
   ((exists p, In p (targets c) /\ step_crash render e s c0 n j junk p <> None) ->
@@ -259,39 +261,60 @@ Theorem same_gate : forall render e c p k, c_dryrun c = false ->
 Proof. exact RegenThm.same_gate. Qed.
 Print Assumptions same_gate.
 
-(* ---- symbolic links at targets (audit 2, G-C12-1) ------------------------------------------------------------------------ *)
-(* exactly one of the two regimes holds for the gate translated from /repo right now: *)
-Theorem gate_links_dichotomy : gate_refuses_links \/ link_quirk = true.
-Proof. exact RegenThm.gate_links_dichotomy. Qed.
-Print Assumptions gate_links_dichotomy.
+(* ---- FIX-STATE OBLIGATIONS (audit 3): the gate translated from /repo on this run --------------------------------------------- *)
+(* refuses symbolic links at the path of a file to generate (84a8551) -- unconditional; a revert breaks the build *)
+Theorem gate_refuses_links_live : gate_refuses_links.
+Proof. exact RegenThm.gate_refuses_links_now. Qed.
+Print Assumptions gate_refuses_links_live.
 
-(* regime "quirk" (before the fix): the statements above are REFUTED when a target is a link.  (a) dangling link +
-   --no-overwrite: no conflict, success, file created at the destination, which is not a target; (b) live link to a foreign
-   read-only file, overwriting: the foreign file is rewritten *)
-Theorem dangling_link_no_overwrite_refuted : link_quirk = true ->
-  exists e s c p d, c_allow c = false /\ c_dryrun c = false /\ In p (targets c) /\ links e p = Some d /\
-    ~ In d (targets c) /\ s d = None /\ snd (step wit_render e s c) = Ok /\
-    obs (fst (step wit_render e s c) d) = Some (1070004, 292).
-Proof. exact RegenThm.dangling_link_no_overwrite_refuted. Qed.
-Print Assumptions dangling_link_no_overwrite_refuted.
+(* refuses directories (7df01dd) -- unconditional *)
+Theorem gate_refuses_directories_live : forall e s p f a, links e p = None -> special e p = false -> s p = Some f -> f_isdir f = true ->
+  exists er, handle_overwrite e s p a = (s, Err er).
+Proof. exact RegenThm.handle_overwrite_dir. Qed.
+Print Assumptions gate_refuses_directories_live.
 
-Theorem live_link_overwrite_refuted : link_quirk = true ->
-  exists e s c p d, c_allow c = true /\ c_dryrun c = false /\ In p (targets c) /\ links e p = Some d /\
-    ~ In d (targets c) /\ obs (s d) = Some (55, 292) /\ snd (step wit_render e s c) = Ok /\
-    obs (fst (step wit_render e s c) d) = Some (1070004, 292).
-Proof. exact RegenThm.live_link_overwrite_refuted. Qed.
-Print Assumptions live_link_overwrite_refuted.
+(* and, as booleans computed on the witnesses of the three findings: whatever known_findings.d/C12.json records as fixed
+   does not reproduce on the translated model *)
+Example fix_state_guards :
+  implb fixed_directory_refusal (negb dir_quirk) && implb fixed_symlink_refusal (negb link_quirk)
+  && implb fixed_nonregular_refusal (negb special_quirk) = true.
+Proof. exact RegenThm.fix_state_guards. Qed.
+Print Assumptions fix_state_guards.
 
-(* regime "refused" (after the fix): a link at a target makes the run fail, and links_safe holds for every configuration, so
-   all footprint / no-overwrite / canonical statements above hold for trees with arbitrary links *)
-Theorem symlink_at_target_fails : forall render e s c, gate_refuses_links ->
+Theorem symlink_at_target_fails : forall render e s c,
   c_dryrun c = false -> (exists p, In p (targets c) /\ links e p <> None) -> snd (step render e s c) <> Ok.
 Proof. exact RegenThm.symlink_at_target_fails. Qed.
 Print Assumptions symlink_at_target_fails.
 
-Theorem links_safe_when_refused : forall e c, gate_refuses_links -> links_safe e c.
+(* ---- entries that are neither file nor directory nor link (devices, FIFOs, sockets; audit 3 G-C12-3) --------------------------
+   The statements above carry specials_safe e c: no target is such an entry, or the gate refuses them (gate_refuses_special).
+   The gate does so once design_notes/C12_nonregular_fix.patch has landed and F-NONREGULAR-TARGET is recorded as fixed: *)
+Theorem nonregular_regime : if fixed_nonregular_refusal then gate_refuses_special else True.
+Proof. exact RegenThm.nonregular_regime. Qed.
+Print Assumptions nonregular_regime.
+
+Theorem specials_safe_when_refused : forall e c, gate_refuses_special -> specials_safe e c.
 Proof. intros e c H p _. now right. Qed.
-Print Assumptions links_safe_when_refused.
+Print Assumptions specials_safe_when_refused.
+
+Theorem special_at_target_fails : forall render e s c, gate_refuses_special ->
+  c_dryrun c = false -> (exists p, In p (targets c) /\ links e p = None /\ special e p = true) -> snd (step render e s c) <> Ok.
+Proof. exact RegenThm.special_at_target_fails. Qed.
+Print Assumptions special_at_target_fails.
+
+(* until then the full statements are refuted for a device at a target: success reported, no generated text there *)
+Theorem special_at_target_refuted : special_quirk = true ->
+  exists e s c p, c_dryrun c = false /\ c_allow c = true /\ In p (targets c) /\ special e p = true /\
+    snd (step wit_render e s c) = Ok /\ obs (fst (step wit_render e s c) p) = Some (0, 292).
+Proof. exact RegenThm.special_at_target_refuted. Qed.
+Print Assumptions special_at_target_refuted.
+
+(* MODEL BOUNDARY (not findings): the tree is keyed by path and a path names one entry.  (1) A HARD LINK: another name of the
+   same inode, inside or outside the output directory, is rewritten when the target is -- the file named by the target path IS
+   the target, the model cannot tell that it has a second name (no inode identity).  (2) A symbolic link in the DIRECTORY
+   CHAIN of a target (out/ns -> elsewhere): every operation resolves it, the files land where the link points; [links] covers
+   the last component only, [ancestors] are plain names.  Refusing either needs a policy (st_nlink > 1? realpath inside out/?)
+   that the property text does not fix.  Both are stated here and in design_notes/C12.md; the harness does not generate them. *)
 
 (* ---- non-vacuity ------------------------------------------------------------------------------------------------------- *)
 Example ex_render_independent : render_independent wit_render.
